@@ -503,6 +503,21 @@ func powOperands(r *rng.R, c dec.Ctx) (dec.D, dec.D) {
 			if r.Bool() {
 				y = dec.D{Form: dec.Finite, Neg: y.Neg, C: new(big.Int).Mul(y.C, dec.Pow10(e)), E: 0}
 			}
+			if r.Chance(1, 3) {
+				// ... with a fractional part as well (the integer part still goes
+				// through repeated squaring), and a base with generic digits
+				// behind the run of zeros or nines
+				f := int64(r.Range(1, 99))
+				y = dec.D{Form: dec.Finite, Neg: y.Neg, C: new(big.Int).Add(new(big.Int).Mul(new(big.Int).Mul(y.C, dec.Pow10(y.E)), big.NewInt(100)), big.NewInt(f)), E: -2}
+				tail := r.Range(1, 9999999)
+				v2 := new(big.Int).Mul(dec.Pow10(k), dec.Pow10(7))
+				if r.Bool() {
+					v2.Add(v2, big.NewInt(tail))
+				} else {
+					v2.Sub(v2, big.NewInt(tail))
+				}
+				x = dec.D{Form: dec.Finite, C: v2, E: -(k + 7)}
+			}
 		}
 		return x, y
 	case 3: // integer exponents up to +/-1e5 on small bases (results may leave the range)
